@@ -817,8 +817,10 @@ fn normalize_extreme_literal_mantissa(
         let after = &frac_part[k + 1..];
         let digit_count = (after.len() + 1) as i128;
         let rest = match mantissa_digit_cap {
-            Some(cap) => after[..after.len().min(cap)].to_string(),
-            None => after.to_string(),
+            Some(cap) if after.len() > cap => {
+                with_sticky_digit(after[..cap].to_string(), [&after[cap..]])
+            }
+            _ => after.to_string(),
         };
         (-(k as i128 + 1), &frac_part[k..=k], rest, digit_count)
     } else {
@@ -829,12 +831,16 @@ fn normalize_extreme_literal_mantissa(
         let after_leading = &int_part[1..];
         let digit_count = (int_part.len() + frac_part.len()) as i128;
         let rest = match mantissa_digit_cap {
-            Some(cap) if after_leading.len() >= cap => after_leading[..cap].to_string(),
+            Some(cap) if after_leading.len() >= cap => with_sticky_digit(
+                after_leading[..cap].to_string(),
+                [&after_leading[cap..], frac_part],
+            ),
             Some(cap) => {
                 let budget = cap - after_leading.len();
-                format!(
-                    "{after_leading}{}",
-                    &frac_part[..frac_part.len().min(budget)]
+                let kept = frac_part.len().min(budget);
+                with_sticky_digit(
+                    format!("{after_leading}{}", &frac_part[..kept]),
+                    [&frac_part[kept..]],
                 )
             }
             None => format!("{after_leading}{frac_part}"),
@@ -882,6 +888,27 @@ fn normalize_extreme_literal_mantissa(
         new_exp,
         digit_count,
     })
+}
+
+/// Finish a mantissa that [`MAX_RENDERED_MANTISSA_DIGITS`] cut short: when any
+/// of the `dropped` digits is nonzero, append one sticky `1` after the kept
+/// ones. Plain truncation can move the rendered value onto (or across) the
+/// midpoint between two adjacent `f64`s, so the printed literal would read back
+/// as a *different* double than the one the source literal denotes. Every `f64`
+/// and every midpoint between two of them has far fewer significant decimal
+/// digits than the cap (at most 768), i.e. is a multiple of the last kept
+/// digit's unit, so none of them can lie strictly between the truncated value
+/// and truncated-plus-one-unit -- and both the true value and the
+/// sticky-marked one do. The marked text therefore always parses to the same
+/// `f64` as the full literal, at the cost of exactly one extra digit.
+fn with_sticky_digit<const N: usize>(mut kept: String, dropped: [&str; N]) -> String {
+    if dropped
+        .iter()
+        .any(|part| part.bytes().any(|b| b != b'0'))
+    {
+        kept.push('1');
+    }
+    kept
 }
 
 /// [`normalize_extreme_literal_mantissa`]'s successful result: a literal's
